@@ -62,8 +62,13 @@ def is_path_leaf(leaf):
 
 
 def extend(leaf, suffix):
-    """append an access-path suffix to a path leaf; other leaves are unchanged"""
+    """append an access-path suffix to a path leaf; other leaves are unchanged. Paths are cut at
+    8 components (k-limiting) so that recursive structures and self-updates reach a fixpoint."""
     if leaf.startswith('a') and len(leaf) > 1 and leaf[1].isdigit():
+        if leaf.count('.') + leaf.count('[') >= 8 or leaf.endswith(suffix + suffix):
+            return leaf
+        if suffix == '[*]' and leaf.endswith('[*]'):
+            return leaf
         return leaf + suffix
     return leaf
 
@@ -101,7 +106,7 @@ def summary(db, path, binding, depth, opaque, stack):
         return None
     fl = Flow(db, fn, binding, depth, opaque, stack + (path,))
     s = Summary()
-    s.ret = set(fl.leaves(0))
+    s.ret = set(fl.ret_ok) if cfgmod.returns_result(fn) else set(fl.leaves(0))
     for k in range(1, fn.arg_count + 1):
         if fn.local_ty(k).startswith('&mut'):
             s.outs[k] = set(fl.out.get(k, set()))
@@ -122,6 +127,8 @@ class Flow:
         n = len(fn.locals)
         self.L = [set() for _ in range(n)]
         self.agg = {}            # local -> {field name: set(leaves)}
+        self.store = {}          # class -> {first field name: leaves written through a projection}
+        self.ret_ok = set()      # leaves of the accepted return value (Ok payload / plain value)
         self.parent = list(range(n))
         self.out = {}            # param local -> leaves written through the &mut param
         self.field_writes = []   # (bb, base leaves, field name, leaves, line)
@@ -148,10 +155,25 @@ class Flow:
             ra, rb = rb, ra
         self.parent[rb] = ra
         self.L[ra] |= self.L[rb]
+        if rb in self.store:
+            m = self.store.setdefault(ra, {})
+            for f, v in self.store.pop(rb).items():
+                m.setdefault(f, set()).update(v)
+        if rb in self.agg:
+            m = self.agg.setdefault(ra, {})
+            for f, v in self.agg.pop(rb).items():
+                m.setdefault(f, set()).update(v)
         return True
 
     def leaves(self, l):
-        return self.L[self.find(l)]
+        r = self.find(l)
+        st = self.store.get(r)
+        if not st:
+            return self.L[r]
+        out = set(self.L[r])
+        for v in st.values():
+            out |= v
+        return out
 
     def _add(self, l, s):
         r = self.find(l)
@@ -185,8 +207,17 @@ class Flow:
                 cur = set(self.agg[r][name])
                 i += 1
         if cur is None:
-            cur = set(self.L[r])
             i = 0
+            while i < len(proj) and proj[i] == '*':
+                i += 1
+            if i < len(proj) and isinstance(proj[i], dict) and 'f' in proj[i] \
+                    and proj[i].get('adt') not in WRAPPER_ADTS:
+                name = proj[i].get('n', str(proj[i]['f']))
+                cur = {extend(x, '.' + name) for x in self.L[r]} | set(self.store.get(r, {}).get(name, ()))
+                i += 1
+            else:
+                cur = self.leaves(base)
+                i = 0
         for e in proj[i:]:
             if e == '*':
                 continue
@@ -309,17 +340,25 @@ class Flow:
         fields = [e for e in proj if isinstance(e, dict) and 'f' in e]
         if not proj:
             return self._add(l, leaves)
-        # projection write: weak update of the base + bookkeeping for out-params / field writes
-        ch |= self._add(l, leaves)
+        # projection write: weak update kept apart from the base's own leaves (so that
+        # self.f = g(self.f) does not make the access paths grow)
         r = self.find(l)
-        if '*' in proj or True:
-            base = self.L[r]
-            for k in range(1, self.fn.arg_count + 1):
-                if f'a{k}' in base and self.fn.local_ty(k).startswith('&mut'):
-                    o = self.out.setdefault(k, set())
-                    n0 = len(o)
-                    o |= leaves
-                    ch |= len(o) != n0
+        real_fields = [e for e in fields if e.get('adt') not in WRAPPER_ADTS]
+        if real_fields:
+            name = real_fields[0].get('n', str(real_fields[0]['f']))
+            st = self.store.setdefault(r, {}).setdefault(name, set())
+            n0 = len(st)
+            st |= leaves
+            ch |= len(st) != n0
+        else:
+            ch |= self._add(l, leaves)
+        base = self.L[r]
+        for k in range(1, self.fn.arg_count + 1):
+            if f'a{k}' in base and self.fn.local_ty(k).startswith('&mut'):
+                o = self.out.setdefault(k, set())
+                n0 = len(o)
+                o |= leaves
+                ch |= len(o) != n0
         if fields:
             name = fields[-1].get('n', '?')
             rec = (bi, name, fields[-1].get('adt'))
@@ -336,6 +375,11 @@ class Flow:
     def _assign(self, bi, place, rv, line):
         leaves = self.rvalue_leaves(rv)
         ch = self._write(bi, place, leaves, line)
+        if place['l'] == 0 and not place['p']:
+            if not (rv['k'] == 'agg' and rv.get('adt') == 'core::result::Result' and rv.get('variant') == 'Err'):
+                n0 = len(self.ret_ok)
+                self.ret_ok |= leaves
+                ch |= len(self.ret_ok) != n0
         if rv['k'] == 'agg' and rv.get('agg') in ('adt', 'tuple') and not place['p']:
             r = self.find(place['l'])
             names = rv.get('fields') or [str(i) for i in range(len(rv['ops']))]
@@ -439,6 +483,10 @@ class Flow:
                         others.add(site)
                     ch |= self._write(bi, {'l': pl['l'], 'p': ['*']}, others, t.get('line'))
         ch |= self._write(bi, dest, res, t.get('line'))
+        if dest['l'] == 0 and not dest['p'] and f.get('path') != cfgmod.FROM_RESIDUAL:
+            n0 = len(self.ret_ok)
+            self.ret_ok |= res
+            ch |= len(self.ret_ok) != n0
         return ch
 
     def _closure_effect(self, leaves, argl, bi):
